@@ -20,9 +20,10 @@ from vlib import q
 from vlib.pat import Pat, returned
 from vlib.front import unparse, dotted, const_value, AnchorMissing
 from vlib.shape import Shape, Space, Ix, Q, D, BoolT, StrT, NoneT, SizeOf, UNK, is_unk, Arr, Rec, Tup, B
-from obligations.shape_tables import (flatten_masks, model_attrs, axis_dir, provenance, mask_text, M, Tmpl, Chan, Samp, Loc, AMP, AMPWH, UM, Shank)
+from obligations.shape_tables import (flatten_masks, opaque_steps, model_attrs, axis_dir, provenance, mask_text, M, Tmpl, Chan, Samp, Loc, AMP, AMPWH, UM, Shank)
 
-FLOOR = 37
+FLOOR = 22          # decided obligations below this = the analysis lost its footing (exit 2); clean tree: 62
+RULES = ('C05.A0', 'C05.A1', 'C05.A2', 'C05.A3', 'C05.A4', 'C05.D1', 'C05.K1', 'C05.K2')          # every obligation group must report (holds / violated / undecided): a group that vanishes silently is an analysis error
 EXPLANATION = ('shape engine: TemplateModel.get_template is abstractly interpreted with its callees inline (_get_template_dense / _sparse, '
                '_find_best_channels, get_closest_channels, _unwhiten) over typed model attributes; every array is typed by the index space '
                'of each axis, the dimension of its elements and provenance tags (ptp over samples, permutation key and direction, masks); '
@@ -139,18 +140,28 @@ def run(ctx):
         thr = [m for m in masks if isinstance(m[1], Q) and 'ptp:Samp' in m[1].tags and m[0] in ('GtE', 'Gt', 'LtE', 'Lt')]
         shank = [m for m in masks if isinstance(m[1], Ix) and m[1].space is Shank and isinstance(m[2], Ix) and m[2].space is Shank and m[0] == 'Eq']
         near = [s for s in prov if s.kind == 'Slice' and s.parent is not None and s.parent.kind == 'Perm' and s.parent.parent is Chan]
-        ctx.check(bool(thr), 'C05.D1', gt, 'threshold mask', 'the dense channel list is restricted to channels whose amplitude reaches the threshold fraction of the peak',
-                  'the dense channel list is not restricted by the amplitude threshold (masks: %s)' % txt)
+        opaque = opaque_steps(prov)
+
+        def present(found, what, ok_msg, bad_msg):
+            # absence is definite only when every step of the derivation of the channel list was understood
+            if found:
+                ctx.holds('C05.D1', gt, ok_msg, what)
+            elif opaque:
+                ctx.undecided('C05.D1', gt, '%s: not found, but the derivation of the channel list has steps that were not understood (%s)' % (what, opaque[:2]))
+            else:
+                ctx.violated('C05.D1', gt, what, bad_msg)
+        present(bool(thr), 'threshold mask', 'the dense channel list is restricted to channels whose amplitude reaches the threshold fraction of the peak',
+                'the dense channel list is not restricted by the amplitude threshold (masks: %s)' % txt)
         for m in thr:
             ctx.check(m[0] == 'GtE', 'C05.K1', gt, m[3], 'threshold test is amplitude >= threshold x peak',
                       'threshold test is `%s`: with a strict comparison the peak channel is excluded for threshold 1 and signal-free channels pass for 0' % unparse(m[3]))
             rhs = m[2]
             ctx.check(isinstance(rhs, Q) and rhs.dim == m[1].dim, 'C05.K1', gt, m[3], 'the threshold is a fraction of an amplitude (same dimension as the amplitudes)',
                       'amplitudes of dimension %s are compared with %s' % (m[1], rhs))
-        ctx.check(bool(shank), 'C05.D1', gt, 'shank mask', 'the dense channel list is restricted to the shank of the peak channel',
-                  'the dense channel list is not restricted to the shank of the peak channel (masks: %s)' % txt)
-        ctx.check(bool(near), 'C05.D1', gt, 'neighbourhood', 'the dense channel list is restricted to the first n channels of a distance ordering',
-                  'the dense channel list is not restricted to the n nearest channels of the peak channel')
+        present(bool(shank), 'shank mask', 'the dense channel list is restricted to the shank of the peak channel',
+                'the dense channel list is not restricted to the shank of the peak channel (masks: %s)' % txt)
+        present(bool(near), 'neighbourhood', 'the dense channel list is restricted to the first n channels of a distance ordering',
+                'the dense channel list is not restricted to the n nearest channels of the peak channel')
         for s in near:
             perm = s.parent
             ke = perm.info.get('keyelem')
@@ -217,11 +228,43 @@ def run(ctx):
         used = [m for m in masks if isinstance(m[1], Ix) and m[1].space is Chan and m[0] == 'NotEq' and -1 in (const_value(m[3].comparators[0]), const_value(m[3].left))]
         sig = [m for m in masks if isinstance(m[1], Q) and m[0] in ('Gt', 'GtE') and any(t.startswith('max:Samp') for t in m[1].tags)]
         roots = [s for s in prov if s.kind == 'base']
-        ctx.check(bool(used), 'C05.D1', gt, 'unused channels', 'sparse: unused (-1) channel slots are dropped', 'sparse: unused (-1) channel slots are not dropped')
-        ctx.check(bool(sig), 'C05.D1', gt, 'signal-free channels', 'sparse: signal-free columns are dropped', 'sparse: signal-free columns are not dropped')
-        ctx.check(Loc in roots, 'C05.D1', gt, 'stored slots', 'sparse: the channel list is drawn from the stored slots of the template', 'sparse: the channel list is not drawn from the stored slots')
+        opaque = opaque_steps(prov)
+        for found, what, ok_msg, bad_msg in ((bool(used), 'unused channels', 'sparse: unused (-1) channel slots are dropped', 'sparse: unused (-1) channel slots are not dropped'),
+                                             (bool(sig), 'signal-free channels', 'sparse: signal-free columns are dropped', 'sparse: signal-free columns are not dropped'),
+                                             (Loc in roots, 'stored slots', 'sparse: the channel list is drawn from the stored slots of the template', 'sparse: the channel list is not drawn from the stored slots')):
+            if found:
+                ctx.holds('C05.D1', gt, ok_msg, what)
+            elif opaque:
+                ctx.undecided('C05.D1', gt, '%s: not found, but the derivation of the channel list has steps that were not understood (%s)' % (what, opaque[:2]))
+            else:
+                ctx.violated('C05.D1', gt, what, bad_msg)
     else:
         ctx.undecided('C05.D1', gt, 'sparse record not typed')
+    # the restrictions must hold on EVERY path through the sparse getter (a filter applied under a condition leaves a path without it)
+    gts = repo.lookup_method(cls, '_get_template_sparse')
+    S2 = Shape(repo, selfattrs=model_attrs(sparse=True), inline_depth=4)
+    paths = S2.results(gts, {'self': UNK, 'template_id': Ix(Tmpl), 'unwhiten': BoolT(True)})
+    recs = [(n_, v_) for n_, v_ in paths if isinstance(v_, Rec) and isinstance(v_.fields.get('channel_ids'), Arr)]
+    if not recs:
+        ctx.undecided('C05.D1', gts, 'sparse getter: no typed record on any path')
+    else:
+        lacking = []
+        for n_, v_ in recs:
+            prov = provenance(v_.fields['channel_ids'].axes[0])
+            masks = flatten_masks([s_.info.get('mask') for s_ in prov if s_.kind == 'Sub' and s_.info.get('mask')])
+            used = [m for m in masks if isinstance(m[1], Ix) and m[1].space is Chan and m[0] == 'NotEq' and -1 in (const_value(m[3].comparators[0]), const_value(m[3].left))]
+            sig = [m for m in masks if isinstance(m[1], Q) and m[0] in ('Gt', 'GtE') and any(t.startswith('max:Samp') for t in m[1].tags)]
+            if opaque_steps(prov):
+                continue
+            if not used:
+                lacking.append((n_, 'unused (-1) channel slots are not dropped'))
+            if not sig:
+                lacking.append((n_, 'signal-free columns are not dropped'))
+        if lacking:
+            for n_, why in lacking[:2]:
+                ctx.violated('C05.D1', gts, why, 'sparse: on one of the %d paths through _get_template_sparse %s (the filter is applied under a condition)' % (len(recs), why))
+        else:
+            ctx.holds('C05.D1', gts, 'sparse: unused slots and signal-free columns are dropped on every path through the sparse getter (%d path results)' % len(recs), '_get_template_sparse')
 
 
 LEVEL_TEXT = ('Static index-space / dimension / provenance typing of get_template (dense default, dense whitened, explicit channels, sparse, sparse '
